@@ -211,6 +211,8 @@ def c08(chk):
                 "non-trivial = distinct (program, context) cases")
     prog_model(chk, "order", 2, {"order", "panic"}, ["order_nontrivial"],
                workers=12 if chk.tier == "quick" else 16, timeout=3000)
+    if chk.tier != "quick":
+        prog_model(chk, "deep", 3, {"order", "panic"}, ["order_nontrivial"], workers=16, timeout=3000)
     traces(chk, "programs", "trace_programs",
            note="random programs of up to ~30 atoms with assignments and recording user functions, evaluated on a context that "
                 "persists across programs: result, context and ordered call log must be the specification's")
